@@ -53,6 +53,7 @@ FApply(pt, op, k) ==
     [] op.name = "CKgate" -> LET m2 == op.modes[2]  e1 == Energy(pt, m)  e2 == Energy(pt, m2)
                              IN  Turn(Turn(pt, m, KInt(op) * e2), m2, KInt(op) * e1)
     [] op.name \in ChanNames -> FLin(pt, <<m>>, << <<op.p[1], Zero>>, <<Zero, op.p[1]>> >>)
+    [] op.name = "MSgate" -> FLin(pt, <<m>>, MSLin(op))
     [] op.name = "Coherent" -> [pt EXCEPT ![XI(pt, m)] = Res(RMul(Two, RMul(op.p[1], op.p[2][1]))),
                                           ![PI(pt, m)] = Res(RMul(Two, RMul(op.p[1], op.p[2][2])))]
     [] op.name \in PrepNames \ {"Coherent"} -> [pt EXCEPT ![XI(pt, m)] = 0, ![PI(pt, m)] = 0]
